@@ -309,6 +309,51 @@ fn probe_holding_cell_claim_then_add() -> Option<String> {
 	}
 }
 
+/// C01 (seeded change C01-r4): a queued `update_fee` and a queued at-limit `update_add_htlc` of the FUNDER leave the holding cell in ONE
+/// batch. Node 0 (funder, keeps 100 000 sat of a 1 000 000 sat channel) cannot build a commitment (AwaitingRemoteRevoke, or its monitor
+/// update is in progress); the fee estimate rises 253 -> `f2` and the timer tick queues the update_fee; then an HTLC of exactly the
+/// reported limit is queued. Everything is delivered. `free_holding_cell_htlcs` must release the adds first and test the fee update
+/// against a view that contains them (dropping it when it no longer fits): honest operation never ends in a force-closure.
+/// Returns (limit, closed?, first protocol error, was an update_fee sent at all).
+fn hc_fee_add_run(f2: u32, legacy: bool, via_monitor: bool, at_limit: bool) -> Option<(u64, bool, String, bool)> {
+	let cfg = Some(if legacy { lightning::ln::functional_test_utils::test_legacy_channel_config() } else { lightning::ln::functional_test_utils::test_default_channel_config() });
+	let mut net = Net::new(2, vec![cfg.clone(), cfg]);
+	let c = net.open(0, 1, 1_000_000, 900_000_000);
+	if via_monitor { net.set_mode(0, true); }
+	net.send(&[0, 1], &[c], 1_000_000, 80).ok()?;
+	let q0 = net.queued(0, 1);
+	if !via_monitor && q0 != 2 { return None; } // update_add_htlc + commitment_signed undelivered: node 0 awaits the revoke_and_ack
+	for i in 0..2 { *net.nodes[i].fee_estimator.sat_per_kw.lock().unwrap() = f2; }
+	net.nodes[0].node.timer_tick_occurred(); net.pump(0);
+	if net.queued(0, 1) != q0 { return None; } // the update_fee went to the holding cell
+	// (control: a small add next to which the fee update still fits must let the update_fee through)
+	let lim = if at_limit { net.nodes[0].node.list_channels()[0].next_outbound_htlc_limit_msat } else { 2_000_000 };
+	net.send(&[0, 1], &[c], lim, 80).ok()?;
+	if net.queued(0, 1) != q0 { return None; } // so did the add
+	if via_monitor { net.set_mode(0, false); for id in net.pending_updates(0, c) { net.complete(0, c, id); } }
+	net.settle(12);
+	let err = net.trace.iter().find_map(|o| if let Obs::ProtoError { text, .. } = o { Some(text.chars().take(220).collect::<String>()) } else { None }).unwrap_or_default();
+	let closed = !net.closed.is_empty();
+	let fee_sent = net.trace.iter().any(|o| matches!(o, Obs::Msg { from: 0, kind: "fee", .. }));
+	std::mem::forget(net);
+	Some((lim, closed, err, fee_sent))
+}
+
+fn probe_holding_cell_fee_and_add() -> (Vec<String>, u64, u64) {
+	let (mut out, mut ran, mut fee_sent_n) = (vec![], 0u64, 0u64);
+	for legacy in [true, false] { for via_monitor in [false, true] { for at_limit in [true, false] { for f2 in [600u32, 1000, 1500, 3000, 8000] {
+		match guarded(std::panic::AssertUnwindSafe(|| hc_fee_add_run(f2, legacy, via_monitor, at_limit))) {
+			Ok(Some((lim, closed, err, fee_sent))) => {
+				ran += 1; if fee_sent { fee_sent_n += 1; }
+				if closed || !err.is_empty() { out.push(format!("holding-cell release of a queued update_fee (253 -> {}) together with a queued HTLC of {} msat = the funder's reported limit ({} channel, funder keeps 100000 of 1000000 sat, commitment blocked by {}): honest operation ended in a protocol error / closure: {}", f2, lim, if legacy { "legacy" } else { "default-config" }, if via_monitor { "a monitor update in progress" } else { "AwaitingRemoteRevoke" }, err)); }
+			},
+			Ok(None) => {},
+			Err(p) => out.push(format!("holding-cell fee+add probe (f2 {}, legacy {}, via_monitor {}) panicked: {}", f2, legacy, via_monitor, p.chars().take(160).collect::<String>())),
+		}
+	} } } }
+	(out, ran, fee_sent_n)
+}
+
 /// Implementation-side pattern of KF-C01-2 in a random scenario: a peer answers an update_add_htlc with "Remote HTLC add would
 /// put them under remote reserve value" and that add left its sender in ONE batch together with a removal (update_fulfill /
 /// update_fail): adds and removals only share a batch when the holding cell is released. Returns the trace index of the failing delivery.
@@ -905,6 +950,7 @@ fn main() {
 	}
 	// the deterministic replay of KF-C01-1 belongs to property C01 only
 	if args.model == "chan" && std::env::var("VERIF_PROPERTY").map(|p| p == "C01").unwrap_or(true) {
+		{ let (viol, ran, fee_sent) = probe_holding_cell_fee_and_add(); for v in viol { rec.oracle_fail(v); } *rec.classes.entry("probe:holding-cell-fee+add:ran".into()).or_insert(0) += ran; *rec.classes.entry("probe:holding-cell-fee+add:update_fee-survived".into()).or_insert(0) += fee_sent; }
 		match guarded(std::panic::AssertUnwindSafe(probe_fundee_limit)) { Ok(Some(m)) => rec.oracle_fail(m), Ok(None) => { rec.notes.insert("kf_c01_1".into(), "probe did not reproduce KF-C01-1 on this tree".into()); }, Err(p) => rec.oracle_fail(format!("fundee-limit probe panicked: {}", p.chars().take(200).collect::<String>())) }		match guarded(std::panic::AssertUnwindSafe(probe_holding_cell_claim_then_add)) { Ok(Some(m)) => rec.oracle_fail(m), Ok(None) => { rec.notes.insert("kf_c01_2".into(), "probe did not reproduce KF-C01-2 on this tree".into()); }, Err(p) => rec.oracle_fail(format!("holding-cell probe panicked: {}", p.chars().take(200).collect::<String>())) }
 	}
 	// C01 only: additional SHORT scenarios (a few operations, then the cooperative close), half of them with a fundee balance
